@@ -8,11 +8,20 @@ On every data set random histories of
     select(**criteria)          all criterion kinds / argument forms / resets of C02's generator
     x = d.vis | d.flags | d.weights | d.raw_flags | d.timestamps           (acquisition: the indexer is KEPT)
     x[ix2]                      any indexer acquired so far, ints / slices / masks / lists per axis
-    observe                     d.shape, dumps, channels, corr_products, timestamps[:], freqs, sensors, mjd
+    observe                     d.shape, dumps, channels, corr_products, timestamps[:], freqs, sensor.timestamps[:],
+                                numeric / categorical sensors with a stored history, d.az, d.el, d.mjd
 are run through the real classes; the same history is run through the extracted Coq model (wire_1), which returns, for
 every read, the model answer (labels = C-order positions in the stored array, shape, conversion) and the spec answer
 computed element-wise from dumps / channels / corr_products of the selection in force AT ACQUISITION.  The harness
 converts labels to the expected values with the stored arrays and compares exactly.
+
+Time: the dumps of the v1 / v2 / v3 files sit on an IRREGULAR grid (late dumps with the first and last one on the uniform
+grid, dropped dumps, a late last dump; quarter dump periods, so everything is dyadic) and every antenna has time-varying
+sensor histories (piecewise linear with non-zero integer slopes; a categorical one).  The model returns the sensor
+cache's time array and the times at which a per-dump sensor is evaluated under the selection; the spec side is the
+documented conversion of the STORED timestamps of the dumps in `dumps`.  The harness evaluates the stored histories
+at those times over the rationals (np.interp is exact on these histories) and compares exactly; select(timerange=)
+of the model is decided on the stored timestamps as well (C01Observation).
 """
 import logging
 import os
@@ -28,17 +37,29 @@ from props import c02
 RULE = ('per format (v1, v2, v3 HDF5 files through katdal.open; v4 telstate + npy chunk store through VisibilityDataV4) '
         'generated observation models (3-12 dumps, 2-8 channels, 2-3 antennas = 10-21 products, scan / compscan / '
         'target structure, v1 scan groups, duplicate final dump, keepdims, lower / upper sideband, centroid / start '
-        'timestamps, time_offset, v4 chunking and shuffled baseline ordering) with injective labels as stored samples '
+        'timestamps, time_offset, v4 chunking and shuffled baseline ordering; v1 / v2 / v3: dump times on a regular or '
+        'IRREGULAR grid = late interior dumps that pass the readers\' quick uniformity test, dropped dumps, late last '
+        'dump, mixed; per antenna time-varying azimuth / elevation histories with non-zero integer slopes and a '
+        'categorical history) with injective labels as stored samples '
         'x histories of 8-16 operations drawn from {select(**kw) with all criterion kinds / argument forms / resets of '
         'the C02 generator incl. flags= and weights=, acquisition of vis / flags / weights / raw_flags / timestamps '
         'indexers (kept for later), x[ix2] on ANY previously acquired indexer with ints (incl. negative), slices, '
         'boolean masks and integer lists per axis (forms the indexer class supports), observation of shape / dumps / '
-        'channels / corr_products / timestamps / freqs / a numeric sensor / a categorical sensor / mjd}; a case is one '
+        'channels / corr_products / timestamps / freqs / sensor.timestamps / every numeric sensor, d.az, d.el, a '
+        'categorical sensor and d.mjd against the stored histories evaluated at the timestamps of the selected dumps / '
+        'scan_index and target against the unselected arrays}; a case is one '
         'operation in its history; non-trivial when it is a read or observation under a selection that is neither '
         'everything nor empty, or a read through an indexer acquired before a later select(); distinct by (data set, '
         'history prefix)')
 ASSUMPTIONS = ['stored samples are labels (small integers exactly representable in float32 / complex64); timestamps, '
                'dump periods and offsets are dyadic rationals, so every comparison is exact equality',
+               'sensor histories: numeric nodes every half dump period with values = integer multiples of it (integer '
+               'slopes, np.interp exact in float64), categorical events at odd multiples of 1/32 dump period (never on '
+               'a dump boundary), plain string values without per-sensor properties; d.az / d.el / d.mjd are compared '
+               'with the same numpy / katpoint functions applied to the exact expected values; the activity arrays of '
+               'antennas with the same stored history are compared with each other from dump 1 on (the readers fold a '
+               'first dump before a slew into the slew on the reference antenna only)',
+               'v4 timestamps are what TelstateDataSource serves (always regular; C17 owns their computation)',
                'the singleton-dimension convention of the answer (keepdims, v1 always 3-d, dropped axes) is not '
                'compared: answers are brought to the canonical 3-axis shape',
                'second-stage indices are in range and of a form the indexer class supports (LazyIndexer: no negative '
@@ -59,8 +80,13 @@ TA = 'A | Aalias, radec bpcal, 19:39:25.03, -63:42:45.6'
 TB = 'B, radec gaincal, 10:00:00.0, -30:00:00.0'
 TC = 'C | Cee, radec target fluxcal, 05:00:00.0, -20:00:00.0'
 TARGETS = [TA, TB, TC]
-NUMERIC_SENSOR = dict(v1='Antennas/%s/pos_actual_scan_azim', v2='Antennas/%s/pos.actual-scan-azim',
-                      v3='Antennas/%s/pos_actual_scan_azim', v4='%s_pos_actual_scan_azim')
+NUMERIC_SENSOR = dict(v1='Antennas/%s/pos_actual_scan_', v2='Antennas/%s/pos.actual-scan-',
+                      v3='Antennas/%s/pos_actual_scan_', v4='%s_pos_actual_scan_')        # + azim | elev
+# every antenna of a fixture gets the SAME stored activity history
+STATE_SENSORS = dict(v2=('Antennas/%s/activity',), v3=('Antennas/%s/activity',), v4=('%s_activity',))
+CATEGORICAL_SENSOR = dict(v1='Antennas/%s/drive_mode', v2='Antennas/%s/drive.mode', v3='Antennas/%s/drive_mode',
+                          v4='%s_drive_mode')
+T0 = dict(v1=1200000000.0, v2=1300000000.0, v3=1500000000.0, v4=1600000000.0 + 123.0)
 
 
 def codes(s):
@@ -85,6 +111,27 @@ def gen_events(rng, T, vocab):
         if rng.random() < 0.3:
             ev.append((d, rng.choice(vocab)))
     return ev
+
+
+def gen_grid(rng, T):
+    """Start of every dump in quarter dump periods after the first: regular, jittered (first and last dump on the
+    uniform grid, so the readers' "quick test for uniform spacing" passes), a dropped dump, a late last dump, mixed."""
+    kind = rng.choice(['regular', 'jitter', 'jitter', 'gap', 'late_last', 'mixed'])
+    g = [4 * i for i in range(T)]
+    if kind in ('jitter', 'mixed'):
+        hit = False
+        for i in range(1, T - 1):
+            if rng.random() < 0.5:
+                g[i] += rng.choice([-1, 1, 1, 2])
+                hit = True
+        if not hit:
+            g[rng.randrange(1, T - 1)] += rng.choice([1, 2])
+    if kind in ('gap', 'mixed'):
+        k, lost = rng.randrange(1, T), 4 * rng.choice([1, 1, 2])
+        g = [x + (lost if i >= k else 0) for i, x in enumerate(g)]
+    if kind == 'late_last' or (kind == 'mixed' and rng.random() < 0.5):
+        g[-1] += rng.choice([1, 2])
+    return kind, g
 
 
 def gen_spec(rng, fmt):
@@ -125,7 +172,104 @@ def gen_spec(rng, fmt):
         spec['bls_seed'] = rng.choice([None, rng.randrange(1000)])
         spec['nants'] = 2
         spec['rdb'] = rng.random() < 0.5          # through katdal.open of an .rdb file next to the chunk store
+    # v4 synthesises its timestamps from first_timestamp and int_time: always a regular grid
+    spec['grid_kind'], spec['grid'] = gen_grid(rng, T) if fmt != 'v4' else ('regular', [4 * i for i in range(T)])
+    spec['sseed'] = rng.randrange(1 << 20)
     return spec
+
+
+class C01Observation(c02.DataSetObservation):
+    """C02's adapter with two differences: dump times may sit on the QUARTER dump grid (late / dropped dumps), and they
+    are NOT read from the data set (d.sensor.timestamps) but given: the documented conversion of what the fixture
+    wrote into the file.  select(timerange=...) of the model is thereby decided by the stored timestamps of the
+    dumps, while katdal decides it with whatever its sensor cache holds."""
+
+    def __init__(self, d, ts):
+        self.d = d
+        d.select()
+        ts = np.asarray(ts, dtype=float)
+        self.timestamps = ts
+        self.T = len(ts)
+        dp = float(d.dump_period)
+        g4 = (ts - ts[0]) / (dp / 4)
+        assert np.all(g4 == np.round(g4)), 'timestamps are not on the quarter-dump grid'
+        self.g4 = [int(x) for x in g4]
+        sub = d.subarrays[0]
+        spw = d.spectral_windows[0]
+        self.kants = list(sub.ants)
+        self.cps = [(str(a), str(b)) for a, b in sub.corr_products]
+        self.B = len(self.cps)
+        self.F = int(spw.num_chans)
+        w = float(spw.channel_width) / 4
+        freqs = np.asarray(spw.channel_freqs, dtype=float)
+        self.fbase = float(freqs.min()) - 8 * w
+        fz = (freqs - self.fbase) / w
+        assert np.all(fz == np.round(fz)), 'channel frequencies are not on the quarter-channel grid'
+        self.fz = [int(x) for x in fz]
+
+        def per_dump(name):
+            return list(np.asarray(d.sensor[name]))
+        self.scan = [int(x) for x in per_dump('Observation/scan_index')]
+        self.state = [str(x) for x in per_dump('Observation/scan_state')]
+        self.cscan = [int(x) for x in per_dump('Observation/compscan_index')]
+        self.label = [str(x) for x in per_dump('Observation/label')]
+        self.tgt = [int(x) for x in per_dump('Observation/target_index')]
+        assert len(self.scan) == self.T, 'per-dump sensors and timestamps differ in length'
+        assert set(self.state) <= set(c02.STATES) and set(self.label) <= set(c02.LABELS)
+        targets = []
+        for t in d.catalogue.targets:
+            assert set(t.tags) <= set(c02.TAGS), 'catalogue tag outside the harness vocabulary'
+            targets.append(dict(names=[t.name] + list(t.aliases), tags=list(t.tags)))
+        # 'gaps' is only used by C02's timerange generator for the upper end of the range of values (whole dumps)
+        self.spec = dict(T=self.T, dp=dp, t0=float(ts[0]), gaps=[-(-x // 4) for x in self.g4],
+                         sc_events=list(range(max(self.scan) + 2)), cs_events=list(range(max(self.cscan) + 2)),
+                         targets=targets, ants=[a.name for a in self.kants], w=w, real_format=type(d).__name__)
+        self.name_ids = {}
+        for t in targets:
+            for n in t['names']:
+                self.name_ids.setdefault(c02.norm_name(n), len(self.name_ids))
+        self.weight_ids = {}
+
+    def wire(self):
+        s = self.spec
+        dumps = [[self.g4[i], self.scan[i], c02.STATES.index(self.state[i]), self.cscan[i],
+                  c02.LABELS.index(self.label[i]), self.tgt[i]] for i in range(self.T)]
+        targets = [[[self.name_ids[c02.norm_name(n)] for n in t['names']], [self.tag_id(x) for x in t['tags']]]
+                   for t in s['targets']]
+        cps = [self.input_id(a) + self.input_id(b) for a, b in self.cps]
+        return [dumps, 2, targets, self.fz, 2, cps]
+
+
+def interp_exact(nodes, x):
+    """numpy.interp(x, xp, fp) over the rationals: held constant outside the nodes, segment j for xp[j] <= x < xp[j+1]."""
+    if x < nodes[0][0]:
+        return nodes[0][1]
+    if x >= nodes[-1][0]:
+        return nodes[-1][1]
+    lo, hi = 0, len(nodes) - 1
+    while hi - lo > 1:
+        mid = (lo + hi) // 2
+        if nodes[mid][0] <= x:
+            lo = mid
+        else:
+            hi = mid
+    (x0, y0), (x1, y1) = nodes[lo], nodes[lo + 1]
+    return (y1 - y0) / (x1 - x0) * (x - x0) + y0
+
+
+def categorical_exact(events, mids, dump_period):
+    """The value of a plain categorical sensor (no transform / greedy values / initial value) in force at every dump:
+    an event belongs to the dump during which it occurred (dump i lasts until mids[i] + dump_period / 2, inclusive;
+    what falls between two dumps goes to the later one), the last event of a dump wins, events before the first dump
+    apply to it, and without such events the first value is extended backwards."""
+    out, k, cur = [], 0, events[0][1]
+    for m in mids:
+        end = m + Fraction(dump_period) / 2
+        while k < len(events) and events[k][0] <= end:
+            cur = events[k][1]
+            k += 1
+        out.append(cur)
+    return out
 
 
 class Fixture:
@@ -143,10 +287,16 @@ class Fixture:
         self.dup = bool(spec.get('dup'))
         self.upper, self.centroid, self.segs = True, False, []
         self.cbf_dump = dt
+        grid4 = spec.get('grid') or [4 * i for i in range(T)]
+        names = dict(v1=('ant1', 'ant2'), v2=('ant1', 'ant2', 'ant3')[:spec['nants']],
+                     v3=('m000', 'm001', 'm062')[:spec['nants']], v4=('m000', 'm001'))[fmt]
+        self.ant_names = names
+        self.hist = cf.gen_hist(random.Random(spec.get('sseed', 0)), names, T0[fmt], dt, dt / 4.0 * grid4[-1] + dt)
+        hist = self.hist
         try:
             if fmt == 'v1':
                 fn = os.path.join(self.tmp, '1200000000.h5')
-                self.st, _, ts = cf.write_v1(fn, [tuple(s) for s in spec['scans']], F=F, dt=dt)
+                self.st, _, ts = cf.write_v1(fn, [tuple(s) for s in spec['scans']], F=F, dt=dt, grid4=grid4, hist=hist)
                 self.d = katdal.open(fn, time_offset=off)
                 self.segs = [s[4] for s in spec['scans']]
                 self.stored_ts = list(ts)
@@ -155,7 +305,7 @@ class Fixture:
                 ants = ('ant1', 'ant2', 'ant3')[:spec['nants']]
                 fn = os.path.join(self.tmp, '1300000000.h5')
                 self.st, _, ts = cf.write_v2(fn, T=T, F=F, ants=ants, dt=dt, acts=spec['acts'], targets=spec['targets'],
-                                             labels=spec['labels'], dup_last=self.dup)
+                                             labels=spec['labels'], dup_last=self.dup, grid4=grid4, hist=hist)
                 self.d = katdal.open(fn, time_offset=off, keepdims=spec['keepdims'])
                 self.stored_ts = list(ts)
                 ant0 = 'ant1'
@@ -166,7 +316,7 @@ class Fixture:
                 self.upper, self.centroid = not spec['lower'], spec['centroid']
                 self.st, _, ts = cf.write_v3(fn, T=T, F=F, ants=ants, dt=dt, acts=spec['acts'], targets=spec['targets'],
                                              labels=spec['labels'], dup_last=self.dup, centroid=self.centroid,
-                                             lower=spec['lower'], cbf_dt=self.cbf_dump)
+                                             lower=spec['lower'], cbf_dt=self.cbf_dump, grid4=grid4, hist=hist)
                 kw = dict(band='u', centre_freq=428e6) if spec['lower'] else dict(centre_freq=1284e6)
                 self.d = katdal.open(fn, time_offset=off, keepdims=spec['keepdims'], **kw)
                 self.stored_ts = list(ts)
@@ -179,7 +329,12 @@ class Fixture:
                 self.st = cf.labelled(T, F, len(bls))
                 chunks = None if spec['chunks'] is None else dict(
                     correlator_data=spec['chunks'], flags=spec['chunks'], weights=spec['chunks'])
-                t0 = 1600000000.0 + 123.0
+                extra = []
+                for a in ants:
+                    extra.append((a + '_pos_actual_scan_azim', hist['num'][a]['azim']))
+                    extra.append((a + '_pos_actual_scan_elev', hist['num'][a]['elev']))
+                    extra.append((a + '_drive_mode', hist['cat'][a]))
+
                 def hook(ts, cbid, stream):
                     ts['capture_block_id'] = cbid
                     ts['stream_name'] = stream
@@ -189,9 +344,7 @@ class Fixture:
                                                  weights=self.st['w_lo'], weights_channel=self.st['w_hi']),
                                      chunks=chunks, acts=tuple(spec['acts']), targets=tuple(spec['targets']),
                                      labels=tuple(spec['labels']), open_kwargs=dict(time_offset=off),
-                                     extra_sensors=[('m000_pos_actual_scan_azim',
-                                                     [(t0 - 20.0, 10.0), (t0 + dt * T + 20.0, 20.0)])],
-                                     telstate_hook=hook, construct=not spec.get('rdb'))
+                                     extra_sensors=extra, telstate_hook=hook, construct=not spec.get('rdb'))
                 if spec.get('rdb'):
                     from katsdptelstate.rdb_writer import RDBWriter
                     rdir = os.path.join(self.tmp, 'v4', self.x.cbid)
@@ -206,15 +359,23 @@ class Fixture:
                 ant0 = 'm000'
             self.file = getattr(self.d, 'file', None)
             d = self.d
-            self.ob = c02.DataSetObservation(d)          # AssertionError: outside the vocabulary / grid of C02
+            # the documented conversion of what was written (v4: what the data source serves, C17), exact in float64
+            st_ts = np.array(self.stored_ts[:T], dtype=np.float64)
+            self.exp_ts = dict(v1=lambda: st_ts / 1000.0 + 0.5 * dt + off, v2=lambda: st_ts + 0.5 * dt + off,
+                               v3=lambda: st_ts + (0.0 if self.centroid else 0.5 * self.cbf_dump) + off,
+                               v4=lambda: st_ts)[fmt]()
+            self.ob = C01Observation(d, self.exp_ts)     # AssertionError: outside the vocabulary / grid of C02
             self.T, self.F = T, F
             self.cps_full = [(str(a), str(b)) for a, b in d.subarrays[0].corr_products]
             self.B = len(self.cps_full)
             self.chan_freqs = np.array(d.spectral_windows[0].channel_freqs)
             d.select()
-            self.sensors = ['Observation/scan_index', 'Observation/target', NUMERIC_SENSOR[fmt] % ant0]
+            self.sensors = ['Observation/scan_index', 'Observation/target']
             self.full = dict((nm, np.array(d.sensor[nm])) for nm in self.sensors)
-            self.full['mjd'] = np.array(d.mjd)
+            # sensors with a stored history: (katdal name, antenna, nodes / events as rationals)
+            fr = lambda l: [(Fraction(float(t)), Fraction(float(v)) if not isinstance(v, str) else v) for t, v in l]   # noqa: E731
+            self.numeric = [(NUMERIC_SENSOR[fmt] % a + w, a, w, fr(hist['num'][a][w])) for a in names for w in ('azim', 'elev')]
+            self.categorical = [(CATEGORICAL_SENSOR[fmt] % a, a, fr(hist['cat'][a])) for a in names[:1]]
             self.obs_wire = self.ob.wire()
         except BaseException:
             self.close()
@@ -327,8 +488,19 @@ def impl_observe(fx):
                    cps=[fx.cps_full.index((str(a), str(b))) for a, b in d.corr_products],
                    timestamps=[Fraction(float(t)) for t in ts], freqs=np.array(d.freqs),
                    lens=[len(ts), len(d.freqs), len(d.corr_products)],
-                   sensors=dict((nm, np.array(d.sensor[nm])) for nm in fx.sensors), mjd=np.array(d.mjd))
+                   sensors=dict((nm, np.array(d.sensor[nm])) for nm in fx.sensors), mjd=np.array(d.mjd),
+                   # the sensor cache's own time array (select(timerange=) and every sensor are evaluated on it)
+                   cache_ts=[Fraction(float(t)) for t in np.asarray(d.sensor.timestamps[:], dtype=float)],
+                   numeric=dict((nm, np.array(d.sensor[nm], dtype=float)) for nm, _, _, _ in fx.numeric),
+                   categorical=dict((nm, [as_str(x) for x in d.sensor[nm]]) for nm, _, _ in fx.categorical),
+                   ants=[a.name for a in d.ants], az=np.array(d.az, dtype=float), el=np.array(d.el, dtype=float),
+                   state=dict((pat % a, [getattr(x, 'description', None) or as_str(x) for x in d.sensor[pat % a]])
+                              for pat in STATE_SENSORS.get(fx.fmt, ()) for a in fx.ant_names))
     return out
+
+
+def as_str(x):
+    return x.decode() if isinstance(x, bytes) else str(x)
 
 
 def describe_ix(py):
@@ -519,7 +691,7 @@ def compare_history(ctx, fx, ops, log, mouts, hid, note=True):
                 ctx.disagree('fmt=%s;op=observe;what=raises' % fmt, case(n), e.get('exc'), 'ok',
                              'reading the public attributes / timestamps / sensors raised')
                 return
-            mshape, mdumps, mchans, mcps, (model_ts, mts), mlens, mfreq, msens = mo
+            mshape, mdumps, mchans, mcps, (model_ts, mts), mlens, mfreq, msens, (mcache, meval, msynth) = mo
             if model_ts != mts:
                 ctx.disagree('fmt=%s;attr=timestamps;what=model_vs_spec' % fmt, case(n), model_ts[:4], mts[:4],
                              'timestamp conversion found in the source differs from the documented one', kind='tie')
@@ -538,13 +710,15 @@ def compare_history(ctx, fx, ops, log, mouts, hid, note=True):
                 ctx.disagree('fmt=%s;attr=freqs;what=differs' % fmt, case(n), ob['freqs'].tolist(), mfreq,
                              'freqs are not the channel frequencies of the selected channels')
             sel_idx = np.array(msens, dtype=int)
-            for nm in fx.sensors + ['mjd']:
-                got = ob['sensors'][nm] if nm != 'mjd' else ob['mjd']
+            for nm in fx.sensors:
+                got = ob['sensors'][nm]
                 exp = fx.full[nm][sel_idx]
                 same = (got.shape == exp.shape) and all(a == b for a, b in zip(got.tolist(), exp.tolist()))
                 if not same:
-                    ctx.disagree('fmt=%s;attr=sensor:%s;what=differs' % (fmt, 'numeric' if 'azim' in nm else nm), case(n),
+                    ctx.disagree('fmt=%s;attr=sensor:%s;what=differs' % (fmt, nm), case(n),
                                  got.tolist(), exp.tolist(), 'per-dump array %s is not that of the selected dumps' % nm)
+            compare_sensors(ctx, fx, case(n), ob, mts, tsmap, mdumps,
+                            [unq(p) for p in mcache], [unq(p) for p in meval], [unq(p) for p in msynth])
             full = (mshape == [fx.T, fx.F, fx.B])
             empty = 0 in mshape
             sel_state = 'all' if full else 'empty' if empty else 'part'
@@ -591,7 +765,12 @@ def compare_history(ctx, fx, ops, log, mouts, hid, note=True):
         shape, labels = s_ans[1], s_ans[2]
         if e['arr'] is None:
             if len(labels) > 0:
-                ctx.disagree(sig0 + ';what=raises', case(n), e['exc'], shape,
+                # dask.array.slicing.take divides by an average chunk size of 0 when the first stage left fewer
+                # elements than (partly empty) chunks on the axis of a repeating / unsorted list (C04's open F37;
+                # cause in dask, an exception, not wrong data): narrow signature of its own (C01r-F2)
+                dask_take = 'range() arg 3 must not be zero' in (e['exc'] or '')
+                ctx.disagree(('fmt=%s;read;what=raises(range() arg 3 must not be zero)' % fmt) if dask_take
+                             else sig0 + ';what=raises', case(n), e['exc'], shape,
                              'a read that selects at least one element raised', spec=shape)
             else:
                 # empty answers: ConcatenatedLazyIndexer raises for empty heads / tails (open C05 findings F10, F10b)
@@ -643,6 +822,81 @@ def compare_history(ctx, fx, ops, log, mouts, hid, note=True):
         if note:
             ctx.note_case((hkey, n), nontrivial=(e['stale'] or sel_state == 'part') and size > 0,
                           sample=dict(fmt=fmt, ops=descs[max(0, n - 3):n + 1], shape=shape, labels=labels[:8], conv=cv))
+
+
+def compare_sensors(ctx, fx, case, ob, mts, tsmap, mdumps, mcache, meval, msynth):
+    """The clause "per-dump sensor arrays are the values of those same dumps": every sensor with a stored history is
+    compared with that history evaluated AT the timestamps of the selected dumps (mts = spec side of the wire: the
+    documented conversion of the stored timestamps of the dumps in `dumps`), exactly (all numbers are dyadic)."""
+    fmt = fx.fmt
+    if meval != mts:
+        ctx.disagree('fmt=%s;attr=sensor_times;what=model_vs_spec' % fmt, case, [float(t) for t in meval[:4]],
+                     [float(t) for t in mts[:4]], 'the model evaluates per-dump sensors at other times than the data '
+                     "set's timestamps of the selected dumps", kind='tie')
+    synth_sel = [msynth[i] for i in mdumps] if len(msynth) == len(tsmap) else None
+
+    def symptom(got, at_synth):
+        # does the answer equal the sensor evaluated on the estimated uniform grid first + dump_period * arange(T)?
+        try:
+            return 'estimated_grid' if synth_sel is not None and synth_sel != mts and got == at_synth() else 'differs'
+        except Exception:      # noqa: BLE001 - classification only
+            return 'differs'
+    got = ob['cache_ts']
+    if got != tsmap or got != mcache:
+        ctx.disagree('fmt=%s;attr=sensor.timestamps;what=%s' % (fmt, 'estimated_grid' if got == msynth else 'differs'), case,
+                     [float(t) for t in got[:8]], [float(t) for t in tsmap[:8]],
+                     "the sensor cache's time array (on which every sensor and select(timerange=) is evaluated) is not "
+                     "the data set's timestamps", spec=[float(t) for t in tsmap[:8]])
+    import katpoint
+    from katdal.dataset import rad2deg
+    for nm, ant, which, nodes in fx.numeric:
+        exp = [interp_exact(nodes, t) for t in mts]
+        got = [Fraction(v) for v in ob['numeric'][nm].tolist()]
+        if got != exp:
+            ctx.disagree('fmt=%s;attr=sensor:numeric;what=%s' % (
+                fmt, symptom(got, lambda: [interp_exact(nodes, t) for t in synth_sel])), case,
+                [float(v) for v in got[:8]], [float(v) for v in exp[:8]],
+                'd.sensor[%r] is not the stored sensor history interpolated at d.timestamps of the selected dumps' % nm,
+                spec=[float(v) for v in exp[:8]])
+        # d.az / d.el: the same history through deg2rad / rad2deg, one column per selected antenna
+        if ant in ob['ants']:
+            col = ob['az' if which == 'azim' else 'el']
+            expf = rad2deg(katpoint.deg2rad(np.array([float(v) for v in exp], dtype=float)))
+            gotc = col[:, ob['ants'].index(ant)] if col.ndim == 2 and col.shape[1] == len(ob['ants']) else col
+            if gotc.shape != expf.shape or not np.array_equal(gotc, expf):
+                ctx.disagree('fmt=%s;attr=%s;what=differs' % (fmt, 'az' if which == 'azim' else 'el'), case,
+                             np.asarray(gotc).ravel()[:8].tolist(), expf[:8].tolist(),
+                             'd.%s of %s is not the pointing history at d.timestamps of the selected dumps'
+                             % ('az' if which == 'azim' else 'el', ant), spec=expf[:8].tolist())
+    for nm, ant, events in fx.categorical:
+        full = categorical_exact(events, tsmap, fx.spec['dt'])
+        exp = [full[i] for i in mdumps]
+        got = ob['categorical'][nm]
+        if got != exp:
+            def at_synth():
+                f = categorical_exact(events, msynth, fx.spec['dt'])
+                return [f[i] for i in mdumps]
+            ctx.disagree('fmt=%s;attr=sensor:categorical;what=%s' % (fmt, symptom(got, at_synth)), case, got[:12], exp[:12],
+                         'd.sensor[%r] is not the value in force at each selected dump' % nm, spec=exp[:12])
+    # activity: all antennas of the fixture have the same stored history, so (the alignment of events with dumps being
+    # a function of history and time grid: C01_sensors_of_selected_dumps) the same per-dump array.  The reference
+    # antenna's is extracted while the scans are built, the others afterwards.  Dump 0 is left out: the readers fold a
+    # first dump that precedes a slew into that slew, in place, on the reference antenna's cached sensor (C03's
+    # business); the target sensors are not compared at all: the reference antenna's is moved onto the scan starts.
+    for pat in STATE_SENSORS.get(fmt, ()):
+        keep = [i for i, dmp in enumerate(mdumps) if dmp > 0]
+        arrs = [[ob['state'][pat % a][i] for i in keep] if len(ob['state'][pat % a]) == len(mdumps) else ob['state'][pat % a]
+                for a in fx.ant_names]
+        if any(a != arrs[-1] for a in arrs):
+            ctx.disagree('fmt=%s;attr=sensor:refant_state;what=differs_between_antennas' % fmt, case,
+                         dict((pat % a, x[:12]) for a, x in zip(fx.ant_names, arrs)), arrs[-1][:12],
+                         'antennas with the same stored activity history have different per-dump arrays: the reference '
+                         "antenna's was aligned with another time grid than the data set's timestamps", spec=arrs[-1][:12])
+    exp = np.array([katpoint.Timestamp(float(t)).to_mjd() for t in mts], dtype=float)
+    got = np.asarray(ob['mjd'], dtype=float)
+    if got.shape != exp.shape or not np.array_equal(got, exp):
+        ctx.disagree('fmt=%s;attr=sensor:mjd;what=differs' % fmt, case, got[:8].tolist(), exp[:8].tolist(),
+                     'd.mjd is not the MJD of d.timestamps of the selected dumps', spec=exp[:8].tolist())
 
 
 def type_of_exc(s):
@@ -760,6 +1014,7 @@ def run(ctx):
             for key in ('dup', 'keepdims', 'lower', 'centroid'):
                 if fx.spec.get(key):
                     ctx.count('quirk=%s:%s' % (fmt, key))
+            ctx.count('grid=%s:%s' % (fmt, fx.spec.get('grid_kind', 'regular')))
             try:
                 for j in range(nh):
                     hseed = rng.randrange(1 << 30)
